@@ -1,4 +1,5 @@
 import NavisModel.Model.Forest
+import NavisModel.Gen.Swc
 /-!
 SWC export / import model for C07 (DESIGN §5 "C07").  Core Lean only, total, computable.
 
@@ -19,17 +20,17 @@ SWC export / import model for C07 (DESIGN §5 "C07").  Core Lean only, total, co
 namespace Navis.Swc
 open Navis.Forest
 
-/-! ### label constants (as written in `make_swc_table` / defaults of `read_swc`) -/
-def lblUndefined : Int := 0
-def lblSoma : Int := 1
-def lblBranch : Int := 5
-def lblEnd : Int := 6
-def lblPre : Int := 7
-def lblPost : Int := 8
+/-! ### constants re-extracted from the current source by `translator/gen_swc.py` (`Gen/Swc.lean`) -/
+def lblUndefined : Int := Gen.Swc.lblUndefined
+def lblSoma : Int := Gen.Swc.lblSoma
+def lblBranch : Int := Gen.Swc.lblBranch
+def lblEnd : Int := Gen.Swc.lblEnd
+def lblPre : Int := Gen.Swc.lblPre
+def lblPost : Int := Gen.Swc.lblPost
 /-- `new_ids.get(x, -1)` -/
-def missingParent : Int := -1
+def missingParent : Int := Gen.Swc.missingParent
 /-- `swc.index.values + 1` -/
-def firstId : Int := 1
+def firstId : Int := Gen.Swc.firstId
 
 /-- One row of `x.nodes` as `make_swc_table` sees it. -/
 structure SNode where
@@ -310,7 +311,7 @@ def attrOf (sk : Skel) (k : String) : String := ((sk.attrs.find? (fun kv => kv.1
 def metaProps (wm : WriteMeta) (sk : Skel) : Option (List (String × String)) :=
   match wm with
   | .off => none
-  | .default => some (["id", "name", "units"].map fun k => (k, attrOf sk k))
+  | .default => some (Gen.Swc.metaKeys.map fun k => (k, attrOf sk k))
   | .keys ks => if ks.isEmpty then none else some (ks.map fun k => (k, attrOf sk k))
   | .dict kv => if kv.isEmpty then none else some kv
 
@@ -331,7 +332,7 @@ def write (wm : WriteMeta) (op : Opts) (sk : Skel) : List Line := writeWith wm o
 
 structure ReadCfg where
   /-- `soma_label` (`None` disables soma detection) -/
-  somaLabel : Option Int := some 1
+  somaLabel : Option Int := some Gen.Swc.readerSomaLabel
   /-- `connector_labels` in dict order -/
   connLabels : List (String × Int) := []
   readMeta : Bool := true
